@@ -13,13 +13,15 @@ TInit == Init /\ l = 1 /\ div = NoDiv /\ dev = {} /\ TLCSet(1, 1) /\ TLCSet(2, N
 
 (* expected observation of a mining step under the IDEAL rule (gp = FALSE) / the deviation (gp = TRUE) *)
 MineObs(ev, gp) == [bits |-> ExpectedBits(pc, chain, Len(chain) + 1, gp), res |-> "ok",
-                    acc |-> IF ev.acc = <<>> THEN <<>> ELSE CandAcc(pc, chain, ev.cb, gp)]
+                    \* the candidates submitted at this step: none, the tip candidates (a prefix of the list), or all
+                    acc |-> IF ev.acc = <<>> THEN <<>> ELSE CandAccN(pc, chain, side, ev.cb, gp, Len(ev.acc))]
 MineAct(ev) == [bits |-> ev.bits, res |-> ev.res, acc |-> ev.acc]
 
 (* ud: this step needs the known deviation *)
 Act(ev, ud) ==
   CASE ev.op = "reset"   -> Reset
     [] ev.op = "cfg"     -> SetCfg(ev.cfg)
+    [] ev.op = "side"    -> SetSide(ev.blocks)       \* the side branch the real ledger has stored, as read back from it
     [] ev.op = "mine"    -> MineW(ev.d, ev.cb, ud)
     [] ev.op = "compact" -> Compact(ev.c)
 
